@@ -2,6 +2,8 @@ PROP = {
     "regen_files": ["GenGuards.v", "GenCollect.v", "GenSigs.v"],
     "num": 7,
     "runs": [{"tag": "c07", "bin": "c07"},
+             # optimised build of the same cases: no debug assertions, no overflow checks, inlined unsafe paths
+             {"tag": "c07rel", "bin": "c07", "profile": "release", "tiers": ["thorough"]},
              # the same scripts with ZERO-SIZED drop-tracked items (a Vec of them has capacity usize::MAX and
              # never allocates): identities are reconstructed from the script order when the counts are right
              {"tag": "c07tz", "bin": "c07", "args": ["--elem", "tz"]},
